@@ -29,3 +29,36 @@ def pack_range(model, payload):
         except BaseException as e:
             return {"reproduced": True, "detail": "dds_hash(%d) raised %s: %s (a low-level exception, not a coded DDS error)" % (c, type(e).__name__, e), "inputs": {"value": c}}
     return {"reproduced": False, "detail": "dds_hash accepted %r" % (cands,)}
+
+
+def twin_mismatch(model, payload):
+    """a clause of dds_hash._dds_hash0 against its spec is no longer provable: compare the real function with the executable
+    twin of the spec (bounded/b_hash.py) on values that exercise every branch"""
+    import dataclasses, datetime, sys
+    from collections import OrderedDict
+    from pathlib import PurePosixPath
+    sys.path.insert(0, "/verif")
+    from bounded.b_hash import twin, Unsupported, TooLong, P1, P2
+    from dds.fun_args import dds_hash
+    from dds.structures import DDSException, DDSErrorCode
+    from dds._config import get_option
+
+    mx = get_option("hash.max_sequence_size")
+    vals = [None, True, 0, -1, 2**31 - 1, 2**31, -(2**31) - 1, 0.0, -0.0, float("nan"), "", "a", "|", [1, [2, "x"]], (1, 2), {"a": 1}, {1: "x"}, {"1": "x"}, {None: 0}, {(1, 2): 0}, {1.5: [1]},
+            OrderedDict([(1, 2), ("k", None)]), P1(3), P2({"a": 1}, [P1(None)]), [{"a": 1}, {"a": 2}], datetime.date(2020, 1, 2), PurePosixPath("a/b"), {b"k": 1}, [b"x"], object()]
+    for v in vals:
+        try:
+            want = ("ok", twin(v, mx))
+        except Unsupported:
+            want = ("err", DDSErrorCode.TYPE_NOT_SUPPORTED)
+        except TooLong:
+            want = ("err", DDSErrorCode.SEQUENCE_TOO_LONG)
+        try:
+            got = ("ok", dds_hash(v))
+        except DDSException as e:
+            got = ("err", e.error_code)
+        except BaseException as e:
+            got = ("low-level", type(e).__name__)
+        if got != want:
+            return {"reproduced": True, "detail": "dds_hash(%r) -> %s, the specification gives %s" % (v, str(got)[:80], str(want)[:80]), "inputs": {"value": repr(v)}}
+    return {"reproduced": False, "detail": "real dds_hash agrees with the spec twin on %d branch-covering values" % len(vals)}
